@@ -60,10 +60,16 @@ impl<'v, 'a> AllocValue<'v> for &'a serde_json::Number {
             heap.alloc(x)
         } else if let Some(x) = self.as_i64() {
             heap.alloc(x)
+        } else if let Ok(x) = BigInt::from_str(&self.to_string()) {
+            // Integer literal outside of the 64 bit range: must be tried before `as_f64`,
+            // which accepts it too, but rounds.
+            heap.alloc(StarlarkInt::from(x))
         } else if let Some(x) = self.as_f64() {
             heap.alloc(x)
-        } else if let Ok(x) = BigInt::from_str(&self.to_string()) {
-            heap.alloc(StarlarkInt::from(x))
+        } else if let Ok(x) = self.to_string().parse::<f64>() {
+            // A float literal too large for `f64` (e.g. `1e999`): `as_f64` rejects
+            // non-finite results, Rust's parser rounds to infinity like Python does.
+            heap.alloc(x)
         } else {
             panic!("Unrepresentable number: {self:?}")
         }
@@ -84,10 +90,16 @@ impl<'fv, 'a> AllocFrozenValue<'fv> for &'a serde_json::Number {
             heap.alloc(x)
         } else if let Some(x) = self.as_i64() {
             heap.alloc(x)
+        } else if let Ok(x) = BigInt::from_str(&self.to_string()) {
+            // Integer literal outside of the 64 bit range: must be tried before `as_f64`,
+            // which accepts it too, but rounds.
+            heap.alloc(StarlarkInt::from(x))
         } else if let Some(x) = self.as_f64() {
             heap.alloc(x)
-        } else if let Ok(x) = BigInt::from_str(&self.to_string()) {
-            heap.alloc(StarlarkInt::from(x))
+        } else if let Ok(x) = self.to_string().parse::<f64>() {
+            // A float literal too large for `f64` (e.g. `1e999`): `as_f64` rejects
+            // non-finite results, Rust's parser rounds to infinity like Python does.
+            heap.alloc(x)
         } else {
             panic!("Unrepresentable number: {self:?}")
         }
